@@ -7,7 +7,7 @@ from diffcheck import Spec, run_spec
 HARNESSES = [("h_lifecycle", "plain", ())]
 
 T_BEH = "cdfhrRp"
-H_FAST = "cfkdbhrzsSt"
+H_FAST = "cfkdbhrzsStA"
 H_SLOW = "ijmw"
 
 
@@ -45,6 +45,9 @@ class C08(Spec):
         cases.append("H 2 1 w,f,w,i")
         cases.append("H 1 3 w")
         cases.append("H 1 3 s")
+        # a download reset while it is in full swing: before fix of 2026-09-26 night the next sendfile raised SIGPIPE (about every
+        # second run of each of these cases)
+        cases += ["H 1 6 A,A,A", "H 2 4 A,f,A,S", "H 3 5 A,A,S,A,f,A"]
         cases.append("H 2 3 s,z,s,f")
         cases.append("H 1 4 t,t,f")
         cases.append("T 1 4 p")
@@ -84,12 +87,12 @@ class C08(Spec):
         return None
 
     def nontrivial(self, case, impl):
-        return any(b in case.split()[3] for b in "rRpijmwdbhzst")
+        return any(b in case.split()[3] for b in "rRpijmwdbhzstA")
 
     def kind(self, case, impl):
         t = case.split()
         bs = set(t[3].split(","))
-        return "%s-%sw-%s" % (t[0], t[1], "timeout" if bs & set("ijmw") else ("abort" if bs & set("rRpdbsz") else "orderly"))
+        return "%s-%sw-%s" % (t[0], t[1], "timeout" if bs & set("ijmw") else ("abort" if bs & set("rRpdbszA") else "orderly"))
 
 
 def run(rep, tier, seed):
